@@ -15,34 +15,51 @@ from .common import Run, frac_s, list_s, opt_s, run_driver
 META = {
     "claimed": True,
     "text": "Lean 4 theorems about a hand model of _dask_rio_reproject / _do_chunked_reproject / "
-    "BlockAssembler.extract / GeoboxTiles.clip / rio_reproject / resolve_fill_value (code of branch "
-    "fix-C13): for grids of one CRS and nearest-neighbour resampling the chunked result equals the "
+    "BlockAssembler.extract / GeoboxTiles.clip / rio_reproject / resolve_fill_value and of the glue around them "
+    "(_xr_reproject_da nodata defaulting and dispatch, the chunks= argument, with_yx, warp_affine, the keywords that reach GDAL; "
+    "code of /repo main incl. fix2-C13): for grids of one CRS and nearest-neighbour resampling the chunked result equals the "
     "whole-array result pixel for pixel for EVERY source and destination chunking and every complete "
-    "dependency map (chunked_eq_whole_nn); every pixel that no source pixel reaches holds "
+    "dependency map (chunked_eq_whole_nn); from the ARGUMENTS of xr_reproject — nodata attribute, src_nodata=, dst_nodata=, every "
+    "accepted form of chunks= (None / pair / tuple of tuples) — dask-backed equals numpy-backed (xr_entry_chunked_eq_whole), on "
+    "the linear path with NO named hypothesis left (xr_entry_linear_total: C04 tilings, C12 linear dependencies and their "
+    "validity composed in; the default chunks= never fails: xrDask_default_ok; N-d arrays with the spatial axes anywhere: xr_entry_nd_linear); every pixel that no source pixel reaches holds "
     "resolve_fill(dst_nodata, src_nodata, dtype) in task chunks and constant chunks alike for ANY dependency "
-    "map (fill_uniform, disjoint_all_fill); every schedule that respects the task dependencies yields the same "
+    "map (fill_uniform, disjoint_all_fill), and for integer rasters with ANY caller nodata (fractional, negative, out of range) "
+    "the constant chunks hold exactly what the warp writes (const_fill_eq_warp_fill; as found they did not: "
+    "const_fill_as_found_cex, fixed in /repo); every schedule that respects the task dependencies yields the same "
     "blocks (order_independent, topo_order_runs).  The model is tied to the code on every run: exact stream "
     "(dyadic placements, all dtypes/nodata settings, 1-pixel and ragged chunks, mirrored, scaled, rotated, "
-    "disjoint, injected dependency maps, recorded execution orders) real chunked and real in-memory results "
+    "disjoint, injected dependency maps, recorded execution orders; the public entry point with every argument form incl. "
+    "rejected chunks=; conversions of raw nodata; declared shape/chunks; keywords observed at rasterio.warp.reproject) real "
+    "chunked and real in-memory results "
     "are compared pixel for pixel with the model; the property itself (dask == numpy under {sync, threads, "
     "seeded random-topological get, holding executor}; unreached pixels == fill computed with exact "
-    "rationals / pyproj) is evaluated on real outputs for same-CRS and cross-CRS pairs, leading time axis, "
+    "rationals / pyproj) is evaluated on real outputs for same-CRS and cross-CRS pairs, extra axes, every numpy dtype the code "
+    "accepts (bool, ints to 64 bit, float16-64, complex) x the nodata option matrix x scalar types, fractional nodata, "
     "non-nearest resampling (fill claim only).",
     "note": "Trusted: Lean kernel + {propext, Classical.choice, Quot.sound}; the GDAL nearest-neighbour "
-    "reference semantics (samplePix/gdalNearest/effNodata/initVal, validated against rasterio every run); "
+    "reference semantics (samplePix/gdalNearest/effNodata/initVal; for raw nodata roundHAZ / rioCheckInt / warpMasks; all "
+    "validated against rasterio every run); "
     "same-CRS linear path: dependency completeness is PROVED through the C12 model (Props/C13C12: unsnapped, "
     "snapped translation, snapped scale under the drift bound |a-a'|*dstW+|c-c'| <= |a'|/4; K17/K23 are the "
-    "real-code violations outside the bound); rotated / cross-CRS: chunked==whole is proved with the "
+    "real-code violations outside the bound) and the tilings through the C04 model (Props/C13GlueC12; chunk sums < 2^31); "
+    "DepsValid (listed source tiles exist) is proved from the C12 model as well (depsValid_of_linear); rotated / cross-CRS: chunked==whole is proved with the "
     "transformer as a parameter (Props/C13P) under the single named hypothesis FootprintsSuperset; N-d arrays "
-    "(any ydim, any chunk tables) are proved plane by plane (Props/C13Nd).  NOT MODELLED (inventory of the "
+    "(any ydim, any chunk tables) are proved plane by plane (Props/C13Nd).  Harness discipline: odc-geo internals "
+    "(_dask_rio_reproject, _rio_reproject, _check_linear, resolve_fill_value, BlockAssembler) are looked up defensively and probed; "
+    "when one is gone or has another calling convention the stream goes through xr_reproject / warp_affine or is skipped with "
+    "a note — graph key names, task binding and layer structure are not looked at.  NOT MODELLED (inventory of the "
     "anchor files): GDAL's approximate transformer and every non-nearest resampling kernel (oracle: fill claim "
     "only); IEEE rounding (non-dyadic placements are oracle-only: lindeps would need a float-rounding model of "
-    "affine multiplication/inversion); _xr_interop._xr_reproject_da beyond nodata defaulting and dask/numpy "
-    "dispatch (attrs, coords, dims, encoding, maybe_int(dst_nodata), output_geobox / _extract_output_geobox_params, "
-    "xr_reproject(Dataset) mapping over variables, GCPGeoBox sources); warp.py: warp_affine / warp_affine_rio, "
-    "resampling_s2rio / is_resampling_nn, the XSCALE/YSCALE kwarg injection, int8->int16 copy-back detail; "
+    "affine multiplication/inversion); which exception class rejects a negative tile size / non-adding chunks (ValueError or "
+    "IndexError, one error kind in the model); nodata conversion for float / complex dtypes (float32 rounding of the double) and "
+    "the int8 -> int16 -> int8 wrap-around of an out-of-range int8 nodata; a destination chunk of zero area wired to sources is "
+    "modelled as the GDAL error it is (emptyTask), zero-length SOURCE chunks are in the model; "
+    "_xr_interop._xr_reproject_da's output assembly (attrs, coords, dims, encoding, maybe_int(dst_nodata): only dask == numpy "
+    "equality of attrs/dims/dtype is checked here, the content is C09's), output_geobox / _extract_output_geobox_params, "
+    "xr_reproject(Dataset) mapping over variables, GCPGeoBox sources; warp.py: is_resampling_nn for enum / int arguments; "
     "_blocks.py: BlockAssembler._verify_shape errors, _norm_roi / extract with partial rois and int indices, "
-    "dtype promotion (_find_common_type), casting=; _dask.py: dtype= / casting= / name= / **kwargs pass-through, "
+    "dtype promotion (_find_common_type), casting=; _dask.py: dtype= / casting= pass-through, "
     "graph naming (uuid4), HighLevelGraph wiring beyond the task-level executor model; geobox.py: "
     "grid_intersect's footprint computation (footprint(4326, 2), to_crs, shapely disjoint) — parameters of C12's "
     "general-path model; GeoBox.compute_crop for geometry/bbox rois.",
@@ -65,27 +82,132 @@ DTYPES = {
 }
 
 
-def _import():
+class Skip(Exception):
+    """a stream needs an odc-geo internal that is not there (renamed / moved / other calling convention): the case is
+    skipped with a note in the evidence — only behaviour observed through public entry points can be a violation"""
+
+
+_NOTES = []
+
+
+def note_once(msg: str):
+    if msg not in _NOTES:
+        _NOTES.append(msg)
+
+
+def _try(fn):
+    try:
+        return fn()
+    except Exception:  # pylint: disable=broad-except
+        return None
+
+
+def _import(probe=True):
+    """`probe=False`: no odc-geo call is made (fresh-interpreter reference runs must start pristine); the internals are then
+    not available to that namespace"""
+    import importlib
+
     import dask
     import dask.array as da
     from affine import Affine
 
-    from odc.geo import _dask as D
     from odc.geo import warp as W
-    from odc.geo._blocks import BlockAssembler
-    from odc.geo._xr_interop import xr_reproject
     from odc.geo.geobox import GeoBox, GeoboxTiles
     from odc.geo.roi import Tiles
-    from odc.geo.xr import wrap_xr
+    from odc.geo.xr import wrap_xr, xr_reproject
 
     class NS:
         pass
 
     ns = NS()
-    ns.dask, ns.da, ns.Affine, ns.D, ns.W = dask, da, Affine, D, W
-    ns.BlockAssembler, ns.xr_reproject, ns.GeoBox, ns.GeoboxTiles = BlockAssembler, xr_reproject, GeoBox, GeoboxTiles
+    ns.dask, ns.da, ns.Affine, ns.W = dask, da, Affine, W
+    ns.xr_reproject, ns.GeoBox, ns.GeoboxTiles = xr_reproject, GeoBox, GeoboxTiles
     ns.Tiles, ns.wrap_xr = Tiles, wrap_xr
+    # internals (private module / private names): looked up defensively, never required
+    ns.D = _try(lambda: importlib.import_module("odc.geo._dask"))
+    ns.BlockAssembler = _try(lambda: getattr(importlib.import_module("odc.geo._blocks"), "BlockAssembler"))
+    ns.resolve_fill = getattr(ns.D, "resolve_fill_value", None) if ns.D is not None else None
+    ns.lowlevel = _probe_lowlevel(ns) if probe else None
+    ns.rio_plane = _probe_rio_plane(ns) if probe else None
     return ns
+
+
+def _probe_lowlevel(ns):
+    """`_dask_rio_reproject` with today's calling convention, or None: one tiny call must agree with the public route"""
+    fn = getattr(ns.D, "_dask_rio_reproject", None) if ns.D is not None else None
+    if fn is None:
+        note_once("odc.geo._dask._dask_rio_reproject not found: low-level streams go through xr_reproject")
+        return None
+    try:
+        sg = ns.GeoBox((2, 3), ns.Affine(1, 0, 0, 0, -1, 2), CRS)
+        dg = ns.GeoBox((3, 3), ns.Affine(1, 0, 1, 0, -1, 3), CRS)
+        data = np.arange(6, dtype="int16").reshape(2, 3) + 1
+        a = fn(ns.da.from_array(data, chunks=(1, 2)), sg, dg, "nearest", 5, 7, ydim=0, chunks=(2, 2)).compute(scheduler="synchronous")
+        b = ns.xr_reproject(ns.wrap_xr(ns.da.from_array(data, chunks=(1, 2)), sg), dg, src_nodata=5, dst_nodata=7,
+                            chunks=(2, 2)).data.compute(scheduler="synchronous")
+        if a.shape == b.shape and np.array_equal(a, b):
+            return fn
+    except Exception:  # pylint: disable=broad-except
+        pass
+    note_once("odc.geo._dask._dask_rio_reproject has another calling convention: low-level streams go through xr_reproject")
+    return None
+
+
+def _probe_rio_plane(ns):
+    """`warp._rio_reproject` with today's calling convention, or None (then the public `warp_affine` is used)"""
+    fn = getattr(ns.W, "_rio_reproject", None)
+    try:
+        sg = ns.GeoBox((1, 3), ns.Affine(1, 0, 0, 0, 1, 0), CRS)
+        dg = ns.GeoBox((1, 4), ns.Affine(1, 0, -1, 0, 1, 0), CRS)
+        a, b = np.full((1, 4), 55, dtype="int16"), np.full((1, 4), 55, dtype="int16")
+        fn(np.array([[1, 2, 3]], dtype="int16"), a, sg, dg, "nearest", 2, 9)
+        ns.W.warp_affine(np.array([[1, 2, 3]], dtype="int16"), b, ns.Affine(1, 0, -1, 0, 1, 0), "nearest", src_nodata=2, dst_nodata=9)
+        if np.array_equal(a, b):
+            return fn
+    except Exception:  # pylint: disable=broad-except
+        pass
+    note_once("odc.geo.warp._rio_reproject not usable: single-plane warps go through the public warp_affine")
+    return None
+
+
+def dask_reproject(ns, src, sg, dg, resampling, sn, dn, ydim=0, chunks=None, **kw):
+    """the dask back-end with explicit (src_nodata, dst_nodata): the private helper when it is there, else the public
+    route (which cannot express `src_nodata` given + `dst_nodata` left None: Skip)"""
+    if ns.lowlevel is not None:
+        return ns.lowlevel(src, sg, dg, resampling, sn, dn, ydim=ydim, chunks=chunks, **kw)
+    if sn is not None and dn is None:
+        raise Skip("(src_nodata, None) pairs need the low-level dask entry point")
+    try:
+        xd = ns.wrap_xr(src, sg, axis=ydim)
+        assert xd.odc.ydim == ydim
+    except Exception:  # pylint: disable=broad-except
+        raise Skip("the public route (wrap_xr + xr_reproject) cannot express this array layout") from None
+    extra = {} if chunks is None else {"chunks": chunks}
+    return ns.xr_reproject(xd, dg, resampling=resampling, src_nodata=sn, dst_nodata=dn, **extra, **kw).data
+
+
+def rio_plane(ns, src, dst, sg, dg, resampling, sn, dn, **kw):
+    """one 2-d warp into a caller buffer without the NaN default of rio_reproject"""
+    if ns.rio_plane is not None:
+        return ns.rio_plane(src, dst, sg, dg, resampling, sn, dn, **kw)
+    return ns.W.warp_affine(src, dst, (~sg.transform) * dg.transform, resampling, src_nodata=sn, dst_nodata=dn, **kw)
+
+
+def corr_skip(R: Run, line, fn, sig=None):
+    """R.corr, unless the real side says Skip (an internal it needs is not available): then a note, no case"""
+    try:
+        out = fn()
+    except Skip as e:
+        note_once(str(e))
+        return None
+    except BaseException as e:  # pylint: disable=broad-except
+        exc = e
+
+        def again():
+            raise exc
+
+        return R.corr(line, again, sig=sig)
+    return R.corr(line, lambda: out, sig=sig)
 
 
 # ------------------------------------------------------------------ canonical text
@@ -394,9 +516,27 @@ def real_deps(ns, sg, dg, case):
 
 
 # ------------------------------------------------------------------ independent oracle
+def round_haz(v):
+    """round to nearest, halves away from zero (what GDAL writes for a fractional nodata of an integer raster)"""
+    q = F(v)
+    return math.floor(q + F(1, 2)) if q >= 0 else -math.floor(-q + F(1, 2))
+
+
+def is_fractional(dtype, v) -> bool:
+    """a nodata value that the integer dtype cannot hold exactly"""
+    if v is None or np.dtype(dtype).kind not in "iu":
+        return False
+    f = float(v)
+    return math.isfinite(f) and f != int(f)
+
+
 def spec_fill(dtype, sn, dn):
-    """the fill value of the property statement"""
+    """the fill value of the property statement (an integer raster cannot hold a fractional nodata: the reference is the
+    value of the in-memory path's warp, nearest integer with halves away from zero)"""
     np_dt = np.dtype(dtype)
+    eff = dn if dn is not None else sn
+    if is_fractional(dtype, eff):
+        return np_dt.type(round_haz(eff))
     if dn is not None:
         return np_dt.type(dn)
     if sn is not None:
@@ -543,12 +683,15 @@ def oracle_pair(R: Run, ns, case, dtype, data, attr_nd, dst_nd, sched, seed, lea
         what = (f"dask-backed differs from numpy-backed at {len(bad)} pixels, first (plane, y, x)={p}: chunked={cp[p]} "
                 f"whole={wp[p]} (dtype {dtype}, nodata attr={attr_nd} dst={dst_nd}, src chunks {case['sy']}x{case['sx']}, "
                 f"dst chunks {case['cy']}x{case['cx']}, extra-axis chunks lead={lead} trail={trail}, scheduler {sched})")
-    R.oracle(ok, key, cj, what, sig=sig)
     # fill claim, evaluated on the chunked result with exact rationals
     sn = attr_nd
     dn = dst_nd if dst_nd is not None else sn
     fv = spec_fill(dtype, sn, dn)
     un = unreached_exact(case)
+    frac = is_fractional(dtype, dn)
+    if not ok and frac and key == "chunked-differs-from-whole" and not (diff & ~un[None]).any():
+        key = "fill-not-uniform:fractional-nodata"
+    R.oracle(ok, key, cj, what, sig=sig)
     okf, whatf = True, ""
     for t, pl in enumerate(cp):
         vals = pl[un]
@@ -559,7 +702,8 @@ def oracle_pair(R: Run, ns, case, dtype, data, attr_nd, dst_nd, sched, seed, lea
             whatf = (f"pixel {tuple(int(i) for i in p)} (plane {t}) is reached by no source pixel but holds {pl[tuple(p)]}, "
                      f"expected fill {fv} (dtype {dtype}, nodata attr={attr_nd} dst={dst_nd}, dst chunks {case['cy']}x{case['cx']})")
             break
-    R.oracle(okf, "unreached-pixel-not-fill", cj, whatf, sig=sig + "|fill", trivial=not un.any())
+    R.oracle(okf, "fill-not-uniform:fractional-nodata" if frac else "unreached-pixel-not-fill", cj, whatf, sig=sig + "|fill",
+             trivial=not un.any())
     if un.all():
         R.count("disjoint-all-fill")
     # value claim against an independent exact reference when no nodata masking interferes
@@ -588,45 +732,15 @@ def kw_s(kw):
             + (f"axis={kw['axis']};" if "axis" in kw else "") + ",".join(f"{k}={v}" for k, v in rest))
 
 
-def task_kwargs(lazy):
-    """the keyword dicts bound into the chunk tasks of the reprojection layer of a real dask graph"""
-    out = []
-    for _name, layer in lazy.dask.layers.items():
-        if True:
-            for v in dict(layer).values():
-                f = v[0] if isinstance(v, tuple) else getattr(v, "func", None)
-                if hasattr(f, "keywords") and getattr(f, "func", None) is not None and f.func.__name__ == "_do_chunked_reproject":
-                    out.append(dict(f.keywords))
-    return out
-
-
 def kw_corr(R: Run, ns, rng):
-    """the keywords `_dask_rio_reproject` binds into its chunk tasks versus the model (Model/C13Kw), incl. error behaviour"""
+    """the members of rasterio's Resampling enum are the ones the model knows (external reference).  Which keywords reach GDAL
+    from the chunk tasks / the in-memory call is compared where they arrive (`glue_kw`, a spy on rasterio.warp.reproject):
+    how the graph binds them (partial, closure, keyword names, layers) is internal and not looked at."""
     import rasterio.enums
 
     R.oracle(sorted(rasterio.enums.Resampling.__members__) == sorted(RESAMPLINGS), "resampling-enum-changed",
              {"members": sorted(rasterio.enums.Resampling.__members__)}, "rasterio.warp.Resampling has other members than the model",
              trivial=True)
-    sg = ns.GeoBox((4, 6), ns.Affine(1, 0, 0, 0, -1, 4), CRS)
-    dg = ns.GeoBox((5, 5), ns.Affine(1, 0, 1.5, 0, -1, 5.25), CRS)
-    names = RESAMPLINGS + ["Bilinear", "CUBIC", "foo", "nearest ", ""]
-    for r in names:
-        for _ in range(2):
-            sn, dn = rng.choice([None, 7, 0]), rng.choice([None, -1, 7])
-            ydim = rng.choice([0, 1])
-            extras = rng.choice([{}, {"num_threads": 2}, {"warp_mem_limit": 32, "num_threads": 1}, {"XSCALE": 1, "YSCALE": 1},
-                                 {"name": "warped", "num_threads": 2}])
-            arr = ns.da.from_array(np.ones(((2,) if ydim else ()) + (4, 6), dtype="float32"), chunks=((1,) if ydim else ()) + (2, 3))
-
-            def f():
-                lz = ns.D._dask_rio_reproject(arr, sg, dg, r, sn, dn, ydim=ydim, chunks=(2, 2), **dict(extras))
-                kws = {kw_s(k) for k in task_kwargs(lz)}
-                return kws.pop() if len(kws) == 1 else f"INCONSISTENT:{sorted(kws)}"
-
-            ex = ",".join(f"{k}={v}" for k, v in sorted(extras.items())) or "-"
-            R.corr(f"c13 kw {r if r.strip() == r and r else 'BAD'} {val_s(sn)} {val_s(dn)} {ydim} {ex}" if r.strip() == r and r else
-                   f"c13 kw BAD{len(r)} {val_s(sn)} {val_s(dn)} {ydim} {ex}", f,
-                   sig="kw|" + ("ok" if r.lower() in RESAMPLINGS else "bad-name"))
 
 
 class WarpSpy:
@@ -636,29 +750,40 @@ class WarpSpy:
         self.ns, self.calls = ns, []
 
     def __enter__(self):
+        import sys
+
         import rasterio.warp
 
-        self.mod = rasterio.warp
         self.orig = rasterio.warp.reproject
 
         def spy(source, destination=None, **kw):
             rec = {k: v for k, v in kw.items() if k not in ("src_transform", "dst_transform", "gcps")}
             rec["dtype"] = f"{np.asarray(source).dtype}->{np.asarray(destination).dtype}"
+            rec["shape"] = tuple(np.asarray(source).shape)
             self.calls.append(rec)
             return self.orig(source, destination, **kw)
 
-        rasterio.warp.reproject = spy
+        # the external boundary, wherever odc-geo holds a reference to it
+        self.patched = [(rasterio.warp, "reproject")]
+        for name, mod in list(sys.modules.items()):
+            if name.startswith("odc.geo") and mod is not None:
+                for attr, val in list(vars(mod).items()):
+                    if val is self.orig:
+                        self.patched.append((mod, attr))
+        for mod, attr in self.patched:
+            setattr(mod, attr, spy)
         return self
 
     def __exit__(self, *a):
-        self.mod.reproject = self.orig
+        for mod, attr in self.patched:
+            setattr(mod, attr, self.orig)
 
     def canon(self):
         def c(v):
             v = getattr(v, "name", v)
             return "nan" if isinstance(v, float) and math.isnan(v) else str(v)
 
-        return sorted({";".join(f"{k}={c(v)}" for k, v in sorted(rec.items())) for rec in self.calls})
+        return sorted({";".join(f"{k}={c(v)}" for k, v in sorted(rec.items()) if k != "shape") for rec in self.calls})
 
 
 def forwarding_one(R: Run, ns, cj):
@@ -680,6 +805,9 @@ def forwarding_one(R: Run, ns, cj):
         R.oracle(False, "reproject-raises", cj, f"{type(e).__name__}: {e}", sig=sig)
         return False
     wk, ck = w.canon(), c.canon()
+    if not wk:
+        note_once("no call of rasterio.warp.reproject observed from the in-memory path: keyword-forwarding oracle skipped")
+        return True
     ok = len(wk) == 1 and (not ck or ck == wk)
     R.oracle(ok, "chunk-keywords-differ-from-whole", cj,
              ("keywords reaching rasterio.warp.reproject differ: in-memory only "
@@ -1226,7 +1354,7 @@ def _fresh_call(payload):
         sys.path.insert(0, os.environ["ODC_GEO_REPO"])
     cj, i = payload
     try:
-        ns = _import()
+        ns = _import(probe=False)
         case = case_from_json(cj["case"])
         data = np.asarray(cj["data"]).astype("int16")
         return history_call(ns, case, data, cj["calls"][i])
@@ -1295,16 +1423,24 @@ def history_eval(R: Run, ns, cj, fresh):
     return okall
 
 
-def fresh_pool():
+def fresh_pool(workers=12):
     import multiprocessing as mp
 
-    return concurrent.futures.ProcessPoolExecutor(max_workers=12, mp_context=mp.get_context("spawn"), max_tasks_per_child=1)
+    return concurrent.futures.ProcessPoolExecutor(max_workers=workers, mp_context=mp.get_context("spawn"), max_tasks_per_child=1)
 
 
-def histories(R: Run, ns, rng, n, dts):
+def histories_start(rng, n, dts, workers=5):
+    """generate the call histories and start their fresh-interpreter reference calls right away: the child processes
+    (one brand-new interpreter per call) run while the main process works through the other streams"""
     cjs = [gen_history(rng, dts) for _ in range(n)]
-    with fresh_pool() as pool:
-        futs = [[pool.submit(_fresh_call, (cj, i)) for i in range(len(cj["calls"]))] for cj in cjs]
+    pool = fresh_pool(workers)  # few workers: they run beside the main process and must not starve it
+    futs = [[pool.submit(_fresh_call, (cj, i)) for i in range(len(cj["calls"]))] for cj in cjs]
+    return pool, cjs, futs
+
+
+def histories_finish(R: Run, ns, started):
+    pool, cjs, futs = started
+    try:
         for cj, fs in zip(cjs, futs):
             fresh = []
             for f in fs:
@@ -1313,6 +1449,12 @@ def histories(R: Run, ns, rng, n, dts):
                 except Exception as e:  # pylint: disable=broad-except
                     fresh.append({"error": f"fresh process failed: {type(e).__name__}: {e}"})
             history_eval(R, ns, cj, fresh)
+    finally:
+        pool.shutdown(wait=True, cancel_futures=True)
+
+
+def histories(R: Run, ns, rng, n, dts):
+    histories_finish(R, ns, histories_start(rng, n, dts))
 
 
 # ------------------------------------------------------------------ several products of one dask source, one graph
@@ -1428,11 +1570,18 @@ def lindeps_corr(R: Run, ns, case, sg, dg, S, sig):
     def f():
         gs = ns.GeoboxTiles(sg, (case["sy"], case["sx"]))
         gd = ns.GeoboxTiles(dg, (case["cy"], case["cx"]))
-        if gd._check_linear(gs) is None:  # pylint: disable=protected-access
+        chk = getattr(gd, "_check_linear", None)
+        if chk is None:
+            raise Skip("GeoboxTiles._check_linear not found: which path grid_intersect takes is not observable, lindeps stream skipped")
+        try:
+            lin = chk(gs)
+        except TypeError:
+            raise Skip("GeoboxTiles._check_linear has another calling convention: lindeps stream skipped") from None
+        if lin is None:
             return "general"
         return deps_s(gd.grid_intersect(gs))
 
-    R.corr("c13 lindeps " + " ".join([
+    corr_skip(R, "c13 lindeps " + " ".join([
         ";".join(frac_s(v) for v in S), ";".join(frac_s(v) for v in case["D"]), str(case["sh"]), str(case["sw"]),
         str(case["dh"]), str(case["dw"]), list_s(case["sy"]), list_s(case["sx"]), str(case["cy"]), str(case["cx"]),
         frac_s(1e-3), frac_s(1e-6), frac_s(1e-8), frac_s(1e-10)]), f, sig=sig)
@@ -1461,21 +1610,22 @@ def corr_lowlevel(R: Run, ns, rng, case, dtype, rotated=False, inject=False):
         src = ns.da.from_array(data, chunks=(case["sy"], case["sx"]))
         if inject:
             orig = ns.GeoboxTiles.grid_intersect
-            ns.GeoboxTiles.grid_intersect = lambda self, other: deps
+            ns.GeoboxTiles.grid_intersect = lambda self, other, *a_, **k_: deps
             try:
-                out = ns.D._dask_rio_reproject(src, sg, dg, "nearest", sn, dn, ydim=0, chunks=(case["cy"], case["cx"]))
+                out = dask_reproject(ns, src, sg, dg, "nearest", sn, dn, ydim=0, chunks=(case["cy"], case["cx"]))
             finally:
                 ns.GeoboxTiles.grid_intersect = orig
         else:
-            out = ns.D._dask_rio_reproject(src, sg, dg, "nearest", sn, dn, ydim=0, chunks=(case["cy"], case["cx"]))
+            out = dask_reproject(ns, src, sg, dg, "nearest", sn, dn, ydim=0, chunks=(case["cy"], case["cx"]))
         sch = RandomTopo(rng.randrange(10**6))
         res = out.compute(scheduler=sch, optimize_graph=False)
         f_dask.order = sch.order
+        f_dask.names = (src.name, out.name)
         f_dask.res = res
         return img_s(res)
 
-    f_dask.order, f_dask.res = [], None
-    R.corr("c13 dask " + ln, f_dask, sig=sig)
+    f_dask.order, f_dask.res, f_dask.names = [], None, (None, None)
+    corr_skip(R, "c13 dask " + ln, f_dask, sig=sig)
     if f_dask.res is not None:
         # fill_uniform on the real output of _dask_rio_reproject, every (src_nodata, dst_nodata) pair
         fv = spec_fill(dtype, sn, dn)
@@ -1499,21 +1649,26 @@ def corr_lowlevel(R: Run, ns, rng, case, dtype, rotated=False, inject=False):
                sig=f"numpy|{tag}|{kind}|nd={'s' if sn is not None else '-'}{'d' if dn is not None else '-'}")
     # the recorded execution order replayed through the model's executor
     if f_dask.order and f_dask.res is not None and rng.random() < 0.5:
-        keys, seen = [], set()
+        # the order in which the blocks of the SOURCE array and of the RESULT array (identified by the public dask names
+        # of the two arrays) became available; every other key of the graph is internal and ignored
+        keys, seen, dseen = [], set(), set()
+        src_name, out_name = f_dask.names
         for k in f_dask.order:
             if isinstance(k, tuple) and len(k) == 3:
-                if str(k[0]).startswith("reproject"):
+                if k[0] == out_name:
                     # (source getters that dask fused away are run right before their first use)
                     for s_ in deps.get((k[1], k[2]), []):
                         if s_ not in seen:
                             seen.add(s_)
                             keys.append("s" + idx_s(s_))
-                    keys.append(f"d{k[1]}.{k[2]}")
-                elif (k[1], k[2]) not in seen:
+                    if (k[1], k[2]) not in dseen:
+                        dseen.add((k[1], k[2]))
+                        keys.append(f"d{k[1]}.{k[2]}")
+                elif k[0] == src_name and (k[1], k[2]) not in seen:
                     seen.add((k[1], k[2]))
                     keys.append(f"s{k[1]}.{k[2]}")
         res = f_dask.res
-        if sum(1 for k in keys if k[0] == "d") == (-(-case["dh"] // case["cy"])) * (-(-case["dw"] // case["cx"])):
+        if len(dseen) == (-(-case["dh"] // case["cy"])) * (-(-case["dw"] // case["cx"])):
             R.corr("c13 exec " + ",".join(keys) + " " + ln, lambda: img_s(res), sig="exec|recorded-order")
 
 
@@ -1596,11 +1751,21 @@ def spec_warp(R: Run, ns, rng, n):
 
         def f():
             dst = np.full((2, 9), 55).astype(dtype)
-            ns.W._rio_reproject(data, dst, sg, dg, "nearest", sn, dn)
+            rio_plane(ns, data, dst, sg, dg, "nearest", sn, dn)
             return img_s(dst)
 
         R.corr("c13 warp " + common_line(case, S, kind, lo, cast_nd(sn, dtype), cast_nd(dn, dtype), "-", data), f,
                sig=f"spec-warp|{kind}|nd={'s' if sn is not None else '-'}{'d' if dn is not None else '-'}")
+        # the public entry points warp_affine / warp_affine_rio: the same warp with the pixel map given directly
+        entry = rng.choice(["warp_affine", "warp_affine_rio"])
+
+        def fa():
+            dst = np.full((2, 9), 55).astype(dtype)
+            getattr(ns.W, entry)(data, dst, to_affine(ns, case["A"]), "nearest", src_nodata=sn, dst_nodata=dn)
+            return img_s(dst)
+
+        R.corr("c13 warpaffine " + common_line(case, S, kind, lo, cast_nd(sn, dtype), cast_nd(dn, dtype), "-", data), fa,
+               sig=f"{entry}|{kind}|nd={'s' if sn is not None else '-'}{'d' if dn is not None else '-'}")
 
 
 def corr_small_ops(R: Run, ns, rng):
@@ -1610,8 +1775,12 @@ def corr_small_ops(R: Run, ns, rng):
         nds = [None, 0, 1] if dtype == "bool" else ([None, 0, 3, float("nan")] if kind == "f" else [None, 0, 3, 200 if dtype != "int8" else 100])
         for dn in nds:
             for sn in nds:
-                R.corr(f"c13 fill {kind} {val_s(cast_nd(dn, dtype))} {val_s(cast_nd(sn, dtype))}",
-                       lambda: val_s(ns.D.resolve_fill_value(dn, sn, dtype)), sig=f"fill|{kind}")
+                def f_fill(dn=dn, sn=sn, dtype=dtype):
+                    if ns.resolve_fill is None:
+                        raise Skip("odc.geo._dask.resolve_fill_value not found: its conversion is only seen through the constant chunks")
+                    return val_s(ns.resolve_fill(dn, sn, dtype))
+
+                corr_skip(R, f"c13 fill {kind} {val_s(cast_nd(dn, dtype))} {val_s(cast_nd(sn, dtype))}", f_fill, sig=f"fill|{kind}")
     # Tiles (destination tiling)
     for N in range(0, 12):
         for n in range(1, 13):
@@ -1654,10 +1823,12 @@ def corr_small_ops(R: Run, ns, rng):
         def fa():
             oy, ox = np.cumsum((0,) + sy), np.cumsum((0,) + sx)
             blocks = {(i, j): data[oy[i]:oy[i + 1], ox[j]:ox[j + 1]] for i, j in present}
+            if ns.BlockAssembler is None:
+                raise Skip("odc.geo._blocks.BlockAssembler not found: block assembly is only seen through the chunked results")
             ba = ns.BlockAssembler(blocks, (sy, sx))
             return img_s(ba.extract(sn, dtype=ba.dtype))
 
-        R.corr(f"c13 asm {kind} {val_s(cast_nd(sn, dtype))} {list_s(sy)} {list_s(sx)} " + "+".join(idx_s(i) for i in present)
+        corr_skip(R, f"c13 asm {kind} {val_s(cast_nd(sn, dtype))} {list_s(sy)} {list_s(sx)} " + "+".join(idx_s(i) for i in present)
                + " " + img_s(data), fa, sig=f"asm|{kind}|fill={'nd' if sn is not None else 'default'}")
 
 
@@ -1824,6 +1995,432 @@ def extra_axes(R: Run, ns, rng, n):
             R.corr(line, lambda got=got: got, sig=f"nd|ydim={'1' if lead else '0'}|axes={int(bool(lead)) + int(bool(trail))}|{kind}")
 
 
+# ------------------------------------------------------------------ every dtype x the nodata option matrix, public entry
+ALL_DTYPES = ["bool", "int8", "uint8", "int16", "uint16", "int32", "uint32", "int64", "uint64", "float16", "float32", "float64",
+              "complex64", "complex128"]
+ND_MODES = ["none", "attr", "src", "dst", "attr+dst", "src+dst", "attr+src", "attr+src+dst"]
+
+
+def nd_scalar(rng, v, dtype):
+    """the same nodata value as a Python int / Python float / numpy scalar of the raster's dtype / numpy float64"""
+    form = rng.choice(["int", "float", "np-dtype", "np-f8"])
+    if form == "int":
+        return int(v), form
+    if form == "float":
+        return float(v), form
+    if form == "np-dtype":
+        return np.dtype(dtype).type(v), form
+    return np.float64(v), form
+
+
+def gen_matrix(rng, i):
+    dtype = ALL_DTYPES[i % len(ALL_DTYPES)]
+    mode = ND_MODES[(i // len(ALL_DTYPES)) % len(ND_MODES)]
+    case = gen_case(rng, rotated=(i % 4 == 3), small=True)
+    if i % 2 == 0:
+        case["cy"], case["cx"] = rng.randint(1, 3), rng.randint(1, 3)  # chunks without any source next to partial ones
+    # (zero is a nodata value like any other: falsy values must not be mistaken for "not given")
+    a, b, c = rng.choice([(1, 1, 1), (0, 1, 0), (1, 0, 1)]) if dtype == "bool" else rng.sample([0, 3, 5, 7], 3)
+    attr = nd_scalar(rng, a, dtype) if "attr" in mode else (None, "-")
+    kw_sn = nd_scalar(rng, b if "attr" in mode else a, dtype) if "src" in mode else (None, "-")
+    dn = nd_scalar(rng, rng.choice([c, a]), dtype) if "dst" in mode else (None, "-")
+    base = np.array([[rng.choice([0, 1, 2, 3, 4, 5, 6, 7, 9]) for _ in range(case["sw"])] for _ in range(case["sh"])])
+    lead = list(axis_chunks(rng, rng.randint(1, 3))) if rng.random() < 0.25 else None
+    return {"kind": "matrix", "case": case_json(case), "dtype": dtype, "mode": mode, "base": base.tolist(), "lead": lead,
+            "attr": [None if attr[0] is None else float(np.real(attr[0])), attr[1]],
+            "src_nd": [None if kw_sn[0] is None else float(np.real(kw_sn[0])), kw_sn[1]],
+            "dst_nd": [None if dn[0] is None else float(np.real(dn[0])), dn[1]],
+            "sched": rng.choice(SCHEDS), "sseed": rng.randrange(10**6)}
+
+
+def _scalar_from(v, form, dtype):
+    if v is None:
+        return None
+    return {"int": int, "float": float, "np-dtype": np.dtype(dtype).type, "np-f8": np.float64}[form](v)
+
+
+def matrix_one(R: Run, ns, cj):
+    """public xr_reproject, numpy-backed versus dask-backed, over dtype x (nodata attribute / src_nodata= / dst_nodata= given
+    or not) x scalar type of the nodata: both refuse loudly, or both give the same pixels and every unreached pixel holds
+    the fill of the property statement"""
+    case, dtype = case_from_json(cj["case"]), cj["dtype"]
+    attr, kw_sn, dn = (_scalar_from(cj[k][0], cj[k][1], dtype) for k in ("attr", "src_nd", "dst_nd"))
+    base = np.asarray(cj["base"])
+    lead = cj.get("lead")
+    nt = sum(lead) if lead else 1
+    planes = [((base + t) % 10) for t in range(nt)]
+    if np.dtype(dtype).kind == "c":
+        planes = [pl + 1j * ((pl * 3) % 4) * (pl != 3) for pl in planes]  # nodata candidates stay purely real
+    data = np.stack(planes).astype(dtype) if lead else planes[0].astype(dtype)
+    sig = f"matrix|{dtype}|{cj['mode']}"
+    sg, dg, _ = geoboxes(ns, case)
+    kw = {} if kw_sn is None else {"src_nodata": kw_sn}
+    ax = 1 if lead else 0
+    chunks = ((tuple(lead),) if lead else ()) + (case["sy"], case["sx"])
+    res, errs = {}, {}
+    for path in ("whole", "chunked"):
+        try:
+            if path == "whole":
+                res[path] = ns.xr_reproject(ns.wrap_xr(data, sg, nodata=attr, axis=ax), dg, dst_nodata=dn, **kw).values
+            else:
+                lz = ns.xr_reproject(ns.wrap_xr(ns.da.from_array(data, chunks=chunks), sg, nodata=attr, axis=ax), dg, dst_nodata=dn,
+                                     chunks=(case["cy"], case["cx"]), **kw)
+                res[path] = compute(ns, lz.data, cj["sched"], cj["sseed"])
+        except Exception as e:  # pylint: disable=broad-except
+            errs[path] = f"{type(e).__name__}: {str(e)[:120]}"
+    if len(errs) == 2:
+        R.oracle(True, "dtype-refused-by-one-path-only", cj, "", sig=sig + "|both-refuse", trivial=True)
+        return True
+    if errs:
+        R.oracle(False, "dtype-refused-by-one-path-only", cj,
+                 f"{dtype}, nodata attr={attr!r} src_nodata={kw_sn!r} dst_nodata={dn!r}: one back-end refuses, the other answers: {errs}", sig=sig)
+        return False
+    whole, chunked = res["whole"], res["chunked"]
+    ok = whole.shape == chunked.shape and whole.dtype == chunked.dtype == np.dtype(dtype) and same(whole, chunked)
+    what = ""
+    if not ok:
+        if whole.shape == chunked.shape:
+            diff = ~((whole == chunked) | ((whole != whole) & (chunked != chunked)))
+            p = tuple(int(i) for i in np.argwhere(diff)[0]) if diff.any() else None
+            what = (f"{dtype}, nodata attr={attr!r} src_nodata={kw_sn!r} dst_nodata={dn!r}: dask-backed differs from numpy-backed at "
+                    f"{int(diff.sum())} pixels, first {p}: chunked={chunked[p] if p else None} whole={whole[p] if p else None}; dtypes "
+                    f"{chunked.dtype}/{whole.dtype}")
+        else:
+            what = f"shapes differ: {chunked.shape} vs {whole.shape}"
+    key = "chunked-differs-from-whole"
+    if not ok and whole.shape == chunked.shape and not (diff & ~edge_zero(case)[None if lead else ...]).any():
+        key = "chunked-differs-from-whole:centre-exactly-on-source-edge"
+    R.oracle(ok, key, cj, what, sig=sig)
+    # the fill of the statement: destination nodata, else source nodata (keyword, else attribute), else NaN for floating
+    # point data and zero otherwise
+    eff_s = kw_sn if kw_sn is not None else attr
+    eff_d = dn if dn is not None else eff_s
+    fv = spec_fill(dtype, eff_s, eff_d)
+    un = unreached_exact(case)
+    okf = True
+    for name, arr in (("chunked", chunked), ("whole", whole)):
+        for pl in planes_of(arr, lead, None):
+            vals = pl[un]
+            good = (vals != vals) if (np.dtype(dtype).kind == "f" and fv != fv) else (vals == fv)
+            if not bool(np.all(good)):
+                okf = False
+                R.oracle(False, "unreached-pixel-not-fill" if name == "chunked" else "unreached-pixel-not-fill-whole", cj,
+                         f"{name} result ({dtype}, nodata attr={attr!r} src_nodata={kw_sn!r} dst_nodata={dn!r}): an unreached pixel holds "
+                         f"{vals[int(np.argmin(good))]!r}, the statement's fill is {fv!r}", sig=sig + "|fill")
+                break
+    if okf:
+        R.oracle(True, "unreached-pixel-not-fill", cj, "", sig=sig + "|fill", trivial=not un.any())
+    return ok and okf
+
+
+def dtype_matrix(R: Run, ns, rng, n):
+    for i in range(n):
+        matrix_one(R, ns, gen_matrix(rng, i))
+
+
+# ------------------------------------------------------------------ glue between the public entry points and the core
+INT_RANGES = {"uint8": (0, 255), "int8": (-128, 127), "int16": (-32768, 32767), "uint16": (0, 65535), "int32": (-(2**31), 2**31 - 1)}
+
+
+def raw_s(v) -> str:
+    """a nodata value as the caller passes it: N / n (NaN) / exact rational of the Python number"""
+    if v is None:
+        return "N"
+    if isinstance(v, float) and math.isnan(v):
+        return "n"
+    return frac_s(F(v))
+
+
+def rejected_arg(arg, dh, dw) -> bool:
+    """a `chunks=` argument the code rejects with ValueError or IndexError (which of the two depends on the tile count
+    and on the path of grid_intersect): negative tile size, variable chunks that do not add up / are empty"""
+    if arg is None:
+        return False
+    if isinstance(arg[0], (tuple, list)):
+        return len(arg[0]) == 0 or len(arg[1]) == 0 or sum(arg[0]) != dh or sum(arg[1]) != dw
+    return 0 not in arg and min(arg) < 0
+
+
+def guard_bad(arg, dh, dw, fn):
+    """the model has one error kind for the rejected forms"""
+    def g():
+        if not rejected_arg(arg, dh, dw):
+            return fn()
+        try:
+            return fn()
+        except (ValueError, IndexError):
+            return "ERR:ValueError|IndexError"
+    return g
+
+
+def chunk_arg_s(arg) -> str:
+    if arg is None:
+        return "N"
+    if isinstance(arg[0], (tuple, list)):
+        return "v:" + list_s(arg[0]) + ":" + list_s(arg[1])
+    return f"p:{int(arg[0])}:{int(arg[1])}"
+
+
+def spans_s(chunks) -> str:
+    o = np.cumsum((0,) + tuple(int(c) for c in chunks))
+    return list_s([f"{a}:{b}" for a, b in zip(o[:-1], o[1:])])
+
+
+def gen_chunk_arg(rng, dh, dw, sy, sx, bad=0.0):
+    """a `chunks=` argument: None, (ny, nx), tuple of tuples (zero-length chunks included); with probability `bad`
+    one that the code must reject (zero / negative tile size, chunks that do not add up)"""
+    r = rng.random()
+    if r < bad:
+        k = rng.random()
+        if k < 0.3:
+            return rng.choice([(0, rng.randint(-1, 3)), (rng.randint(-1, 3), 0), (0, 0)])
+        if k < 0.6:
+            return rng.choice([(-rng.randint(1, 3), rng.randint(1, 3)), (rng.randint(1, 3), -rng.randint(1, 3)), (-1, -2)])
+        ys, xs = list(compositions(rng, dh)), list(compositions(rng, dw))
+        which = rng.choice(["y", "x", "both"])
+        if which in ("y", "both"):
+            ys = ys + [rng.randint(1, 2)] if rng.random() < 0.5 or len(ys) == 1 else ys[:-1]
+        if which in ("x", "both"):
+            xs = xs + [rng.randint(1, 2)] if rng.random() < 0.5 or len(xs) == 1 else xs[:-1]
+        return (tuple(ys), tuple(xs))
+    r = rng.random()
+    if r < 0.25:
+        return None
+    if r < 0.6:
+        return (rng.randint(1, dh + 2), rng.randint(1, dw + 2))
+
+    def with_zeros(c):
+        c = list(c)
+        if rng.random() < 0.3:
+            c.insert(rng.randrange(len(c) + 1), 0)
+        return tuple(c)
+
+    return (with_zeros(compositions(rng, dh)), with_zeros(compositions(rng, dw)))
+
+
+def glue_small(R: Run, ns, rng):
+    """conversions and argument normalisers one by one (Model/C13Glue): resolve_fill_value on raw nodata, what the warp
+    leaves in an unreached pixel, which pixels a fractional nodata masks, the chunks= argument, the declared array,
+    is_resampling_nn, rio_reproject's ydim default"""
+    sg1 = ns.GeoBox((1, 1), ns.Affine(1, 0, 0, 0, -1, 1), CRS)
+    dg1 = ns.GeoBox((1, 1), ns.Affine(1, 0, 100, 0, -1, 1), CRS)
+    for dtype, (lo, hi) in INT_RANGES.items():
+        vals = [None, 0, 3, 2.5, 3.5, 2.25, 2.75, 0.5, float("nan"), hi, hi + 0.4, hi + 0.5, hi + 1, lo, lo - 0.4, lo - 0.5, lo - 1,
+                -0.5, -0.25, -1.5, -2.5, 1e10, 3.0, rng.randint(lo, hi) + rng.choice([0.5, 0.25, 0.75])]
+        pairs = [(v, None) for v in vals] + [(None, v) for v in vals] + [(rng.choice(vals), rng.choice(vals)) for _ in range(12)]
+        for dn, sn in pairs:
+            def f_fill(dn=dn, sn=sn, dtype=dtype):
+                if ns.resolve_fill is None:
+                    raise Skip("odc.geo._dask.resolve_fill_value not found: its conversion is only seen through the constant chunks")
+                return str(int(ns.resolve_fill(dn, sn, dtype)))
+
+            frac = any(is_fractional(dtype, v) for v in (dn, sn))
+            corr_skip(R, f"c13 fillraw T {lo} {hi} {raw_s(dn)} {raw_s(sn)}", f_fill, sig=f"fillraw|{dtype}|{'frac' if frac else 'int'}")
+            if dtype == "int8":
+                continue  # warped as int16 and copied back with casting="unsafe" (wrap-around not modelled)
+
+            def f_whole(dn=dn, sn=sn, dtype=dtype):
+                dst = np.full((1, 1), 77, dtype=dtype)
+                rio_plane(ns, np.ones((1, 1), dtype=dtype), dst, sg1, dg1, "nearest", sn, dn)
+                return str(int(dst[0, 0]))
+
+            R.corr(f"c13 wholefill {lo} {hi} {raw_s(dn)} {raw_s(sn)}", f_whole, sig=f"wholefill|{dtype}|{'frac' if frac else 'int'}")
+    sg3 = ns.GeoBox((1, 3), ns.Affine(1, 0, 0, 0, -1, 1), CRS)
+    for dtype in ("uint8", "int16", "int32"):
+        for p in (2, 7):
+            for q in (p, p + 0.5, p - 0.25, p + 1, None):
+                def f_mask(p=p, q=q, dtype=dtype):
+                    dst = np.full((1, 3), 77, dtype=dtype)
+                    rio_plane(ns, np.array([[p - 1, p, p + 1]], dtype=dtype), dst, sg3, sg3, "nearest", q, 99)
+                    return "T" if dst[0, 1] == 99 else "F"
+
+                R.corr(f"c13 masks {raw_s(q)} {p}", f_mask, sig="masks|" + ("frac" if is_fractional(dtype, q) else "int"))
+    # the chunks= argument through the public entry point
+    for i in range(R.pick(120, 900)):
+        sh, sw, dh, dw = (rng.randint(1, 6) for _ in range(4))
+        sy, sx = compositions(rng, sh), compositions(rng, sw)
+        arg = gen_chunk_arg(rng, dh, dw, sy, sx, bad=0.35)
+        sg = ns.GeoBox((sh, sw), ns.Affine(1, 0, 0, 0, -1, sh), CRS)
+        dg = ns.GeoBox((dh, dw), ns.Affine(1, 0, rng.randint(-2, 2), 0, -1, sh + rng.randint(-2, 2)), CRS)
+
+        def f_chunks(sg=sg, dg=dg, sy=sy, sx=sx, arg=arg, sh=sh, sw=sw):
+            xd = ns.wrap_xr(ns.da.zeros((sh, sw), chunks=(sy, sx), dtype="int16"), sg)
+            lz = ns.xr_reproject(xd, dg, **({} if arg is None else {"chunks": arg}))
+            cy, cx = lz.data.chunks
+            return spans_s(cy) + " " + spans_s(cx)
+
+        form = "none" if arg is None else ("var" if isinstance(arg[0], tuple) else "pair")
+        corr_skip(R, f"c13 chunks {dh} {dw} {list_s(sy)} {list_s(sx)} {chunk_arg_s(arg)}", guard_bad(arg, dh, dw, f_chunks), sig=f"chunks|{form}")
+    # what _dask_rio_reproject declares: shape / chunks / numblocks with the spatial axes at ydim
+    for i in range(R.pick(60, 400)):
+        ydim, ntrail = rng.randint(0, 2), rng.randint(0, 1)
+        sh, sw, dh, dw = (rng.randint(1, 5) for _ in range(4))
+        axes = [axis_chunks(rng, rng.randint(1, 3)) for _ in range(ydim)] + [compositions(rng, sh), compositions(rng, sw)] + [
+            axis_chunks(rng, rng.randint(1, 3)) for _ in range(ntrail)]
+        arg = gen_chunk_arg(rng, dh, dw, axes[ydim], axes[ydim + 1], bad=0.15)
+        sg = ns.GeoBox((sh, sw), ns.Affine(1, 0, 0, 0, -1, sh), CRS)
+        dg = ns.GeoBox((dh, dw), ns.Affine(1, 0, 1, 0, -1, sh), CRS)
+
+        def f_decl(axes=axes, ydim=ydim, sg=sg, dg=dg, arg=arg):
+            arr = ns.da.zeros(tuple(sum(a) for a in axes), chunks=tuple(axes), dtype="uint8")
+            lz = dask_reproject(ns, arr, sg, dg, "nearest", None, None, ydim=ydim, chunks=arg)
+            return (list_s(lz.shape) + " " + "/".join(list_s(c) for c in lz.chunks) + " " + list_s(lz.numblocks))
+
+        corr_skip(R, f"c13 declared {ydim} {'/'.join(list_s(a) for a in axes)} {dh} {dw} {chunk_arg_s(arg)}", guard_bad(arg, dh, dw, f_decl),
+               sig=f"declared|ydim={ydim}|trail={ntrail}")
+    for name in RESAMPLINGS + ["Nearest", "NEAREST", "nearest ", "near", "NeArEsT", "Bilinear"]:
+        tok = name if name.strip() == name else "BAD"
+        if tok == "BAD":
+            continue
+        R.corr(f"c13 isnn {tok}", lambda name=name: "T" if ns.W.is_resampling_nn(name) else "F",
+               sig="isnn|" + ("nn" if name.lower() == "nearest" else "other"))
+    for ndim in (2, 3, 4):
+        for ydim in [None] + list(range(ndim - 1)):
+            def f_ydim(ndim=ndim, ydim=ydim):
+                shape = [2] * ndim
+                eff = ndim - 2 if ydim is None else ydim
+                shape[eff], shape[eff + 1] = 3, 5
+                with WarpSpy(ns) as spy:
+                    ns.W.rio_reproject(np.zeros(shape, dtype="uint8"), np.zeros(shape, dtype="uint8"),
+                                       ns.GeoBox((3, 5), ns.Affine(1, 0, 0, 0, -1, 3), CRS), ns.GeoBox((3, 5), ns.Affine(1, 0, 0, 0, -1, 3), CRS),
+                                       "nearest", ydim=ydim)
+                seen = [tuple(c["shape"]) for c in spy.calls]
+                if not seen:
+                    raise Skip("no call of rasterio.warp.reproject observed: which axes rio_reproject warps is not observable")
+                assert set(seen) == {(3, 5)} and len(seen) == 2 ** (ndim - 2), seen
+                return str(eff)
+
+            corr_skip(R, f"c13 rioydim {ndim} {opt_s(ydim)}", f_ydim, sig="rioydim|" + ("default" if ydim is None else "given"))
+
+
+def gdal_kw_s(rec, known):
+    """canonical text of what one rasterio.warp.reproject call received: resampling, nodata pair and those extra keywords the
+    model knows about (the caller's extras and XSCALE / YSCALE, in the order given); any other keyword is recorded as a note —
+    whether chunk tasks and the in-memory call receive the SAME keywords is judged by the forwarding oracle"""
+    fixed = ("src_transform", "dst_transform", "gcps", "src_crs", "dst_crs", "resampling", "src_nodata", "dst_nodata", "dtype", "shape")
+    r = rec.get("resampling")
+    for k in rec:
+        if k not in fixed and k not in known:
+            note_once(f"keyword {k}={rec[k]!r} reaches rasterio.warp.reproject besides the caller's (not in the model)")
+    return (f"resampling={str(getattr(r, 'name', r)).lower()};src_nodata={val_s(rec.get('src_nodata'))};dst_nodata={val_s(rec.get('dst_nodata'))};"
+            + ",".join(f"{k}={v}" for k, v in rec.items() if k in known))
+
+
+def glue_kw(R: Run, ns, rng):
+    """the keywords that actually reach rasterio.warp.reproject (spy) from the chunk tasks and from the in-memory call versus
+    the model (chunkTaskKw / wholeKw + the XSCALE/YSCALE injection of _rio_reproject)"""
+    sg = ns.GeoBox((4, 6), ns.Affine(1, 0, 0, 0, -1, 4), CRS)
+    dg = ns.GeoBox((5, 5), ns.Affine(1, 0, 1, 0, -1, 5), CRS)
+    data = (np.arange(24).reshape(4, 6) % 5 + 1).astype("int16")
+    for r in ["nearest", "Bilinear", "CUBIC", "mode", "average", "foo"]:
+        for extras in ({}, {"num_threads": 2}, {"XSCALE": 2}, {"YSCALE": 3, "num_threads": 1}, {"XSCALE": 1, "YSCALE": 1},
+                       {"init_dest_nodata": True, "warp_mem_limit": 16}):
+            sn, dn = rng.choice([None, 7, 0]), rng.choice([None, -1, 7])
+            ex = ",".join(f"{k}={v}" for k, v in extras.items()) or "-"
+
+            def f(path, r=r, sn=sn, dn=dn, extras=extras):
+                with WarpSpy(ns) as spy:
+                    if path == "chunk":
+                        dask_reproject(ns, ns.da.from_array(data, chunks=(2, 3)), sg, dg, r, sn, dn, ydim=0, chunks=(3, 2),
+                                       **dict(extras)).compute(scheduler="synchronous")
+                    else:
+                        ns.W.rio_reproject(data, np.zeros((5, 5), dtype="int16"), sg, dg, r, sn, dn, ydim=0, **dict(extras))
+                kws = {gdal_kw_s(c, set(extras) | {"XSCALE", "YSCALE"}) for c in spy.calls}
+                if not kws:
+                    raise Skip("no call of rasterio.warp.reproject observed: keywords reaching GDAL are not observable")
+                return kws.pop() if len(kws) == 1 else f"INCONSISTENT:{sorted(kws)}"
+
+            for path in ("chunk", "whole"):
+                corr_skip(R, f"c13 gdalkw {path} {r} {val_s(sn)} {val_s(dn)} 0 {ex}", lambda path=path, f=f: f(path),
+                       sig=f"gdalkw|{path}|" + ("ok" if r.lower() in RESAMPLINGS else "bad-name") + ("|scale-given" if any(k.endswith("SCALE") for k in extras) else ""))
+
+
+def glue_xr_entry(R: Run, ns, rng, n, dts):
+    """the public entry point with every argument form, model == real in both back-ends and dask == numpy: nodata attribute x
+    src_nodata= x dst_nodata= x chunks= (None / pair / tuple of tuples with zero-length chunks / rejected forms)"""
+    for i in range(n):
+        case = gen_case(rng, rotated=(i % 5 == 4), small=(i % 2 == 0))
+        dtype = dts[i % len(dts)]
+        kind, lo = DTYPES[dtype]
+        isf, isb = dtype.startswith("float"), dtype == "bool"
+        nds = [None, 0, 1] if isb else ([None, 3, float("nan"), -9999] if isf else [None, 0, 3, 5])
+        attr = rng.choice(nds)
+        kw_sn = rng.choice([None, None] + nds[1:])
+        eff = kw_sn if kw_sn is not None else attr
+        # (floats: a destination nodata that is not the source nodata makes GDAL move colliding values by one ulp)
+        dn = rng.choice([None, None, eff] + ([] if isf else nds[1:]))
+        arg = gen_chunk_arg(rng, case["dh"], case["dw"], case["sy"], case["sx"], bad=0.12)
+        data = gen_data(rng, (case["sh"], case["sw"]), dtype, (eff, dn))
+        if rng.random() < 0.15:
+            # zero-length source chunks (dask arrays get them from slicing / filtering)
+            case = dict(case)
+            for k_ in ("sy", "sx"):
+                c_ = list(case[k_])
+                c_.insert(rng.randrange(len(c_) + 1), 0)
+                case[k_] = tuple(c_)
+        sg, dg, S = geoboxes(ns, case)
+        form = "none" if arg is None else ("var" if isinstance(arg[0], tuple) else "pair")
+        sig = f"xr-entry|{kind}|chunks={form}|nd={'a' if attr is not None else '-'}{'s' if kw_sn is not None else '-'}{'d' if dn is not None else '-'}"
+        kw = {} if kw_sn is None else {"src_nodata": kw_sn}
+        kwc = dict(kw) if arg is None else dict(kw, chunks=arg)
+        out = {}
+
+        def f_dask(out=out, kwc=kwc, data=data, case=case, sg=sg, dg=dg, attr=attr, dn=dn):
+            xd = ns.wrap_xr(ns.da.from_array(data, chunks=(case["sy"], case["sx"])), sg, nodata=attr)
+            lz = ns.xr_reproject(xd, dg, dst_nodata=dn, **kwc)
+            out["attrs"], out["dims"], out["dtype"] = dict(lz.attrs), lz.dims, lz.dtype
+            out["chunked"] = lz.data.compute(scheduler="synchronous")
+            return img_s(out["chunked"])
+
+        def f_numpy(out=out, kwc=kwc, data=data, sg=sg, dg=dg, attr=attr, dn=dn):
+            xn = ns.wrap_xr(data, sg, nodata=attr)
+            res = ns.xr_reproject(xn, dg, dst_nodata=dn, **kwc)  # `chunks=` is passed here too: it must not matter
+            out["attrs_n"], out["dims_n"], out["dtype_n"] = dict(res.attrs), res.dims, res.dtype
+            out["whole"] = res.values
+            return img_s(out["whole"])
+
+        # the dependency table the real code derives for the tilings of this argument form
+        try:
+            how = arg if arg is not None else (max(case["sy"]), max(case["sx"]))
+            deps = ns.GeoboxTiles(dg, how).grid_intersect(ns.GeoboxTiles(sg, (case["sy"], case["sx"])))
+        except Exception:  # pylint: disable=broad-except
+            deps = {}
+        c2 = dict(case, cy=1, cx=1)
+        line = common_line(c2, S, kind, lo, cast_nd(kw_sn, dtype), cast_nd(dn, dtype), deps_s(deps), data)
+        corr_skip(R, f"c13 xr dask {val_s(cast_nd(attr, dtype))} {chunk_arg_s(arg)} " + line, guard_bad(arg, case["dh"], case["dw"], f_dask), sig=sig)
+        R.corr(f"c13 xr numpy {val_s(cast_nd(attr, dtype))} {chunk_arg_s(arg)} " + line, f_numpy, sig=sig.replace("xr-entry", "xr-entry-numpy"))
+        if "chunked" in out and "whole" in out:
+            cj = case_json(case, dtype=dtype, data=data_json(data, dtype), attr_nd=nd_json(attr), kw_src_nd=nd_json(kw_sn), dst_nd=nd_json(dn),
+                           chunks=arg, kind="entry")
+            ok = same(out["chunked"], out["whole"])
+            key = "chunked-differs-from-whole"
+            if not ok and not ((out["chunked"] != out["whole"]) & ~edge_zero(case)).any():
+                key = "chunked-differs-from-whole:centre-exactly-on-source-edge"
+            R.oracle(ok, key, cj, f"xr_reproject(chunks={arg}, src_nodata={kw_sn}, dst_nodata={dn}, nodata attr {attr}): dask-backed "
+                     "differs from numpy-backed" if not ok else "", sig=sig + "|eq")
+            okm = (out["attrs"] == out["attrs_n"] or (str(out["attrs"]) == str(out["attrs_n"]))) and out["dims"] == out["dims_n"] \
+                and out["dtype"] == out["dtype_n"]
+            R.oracle(okm, "entry-metadata-differs", cj, f"dask-backed result has attrs {out['attrs']} dims {out['dims']} dtype {out['dtype']}, "
+                     f"numpy-backed {out['attrs_n']} {out['dims_n']} {out['dtype_n']}" if not okm else "", sig="xr-entry|metadata", trivial=True)
+
+
+def fractional_nodata(R: Run, ns, rng, n):
+    """integer rasters with a nodata value the dtype cannot hold (2.5, -0.5, 3.75 ...): the constant blocks of
+    `_dask_rio_reproject` (resolve_fill_value), the task chunks and the in-memory path must agree on the integer they
+    write; destinations larger than the source with small chunks, so all three kinds of pixels occur"""
+    for i in range(n):
+        case = gen_case(rng, rotated=(i % 3 == 2), small=True)
+        case["cy"], case["cx"] = rng.randint(1, 3), rng.randint(1, 3)
+        dtype = rng.choice(["uint8", "int16", "int32", "uint16", "int8"])
+        signed = np.dtype(dtype).kind == "i"
+        nd = rng.randint(-4 if signed else 0, 9) + rng.choice([0.5, 0.5, 0.25, 0.75])
+        if not signed:
+            nd = abs(nd)
+        attr, dn = rng.choice([(nd, None), (None, nd), (3, nd), (nd, 5), (nd, nd)])
+        data = gen_data(rng, (case["sh"], case["sw"]), dtype, (attr, dn))
+        oracle_pair(R, ns, case, dtype, data, attr, dn, rng.choice(SCHEDS), rng.randrange(10**6), tag="frac")
+
+
 # ------------------------------------------------------------------ entry points
 def _w(sh, sw, dh, dw, A, sy, sx, cy, cx):
     ident = (F(1), F(0), F(0), F(0), F(1), F(0))
@@ -1839,6 +2436,10 @@ WITNESSES = [
     (_w(4, 6, 12, 12, (F(0), F(1), F(-3), F(1), F(0), F(-3)), (2, 2), (3, 3), 2, 3), "bool", 1, None),
     # disjoint rasters
     (_w(3, 3, 4, 4, (F(1), F(0), F(100), F(0), F(1), F(100)), (2, 1), (1, 2), 3, 2), "float64", None, None),
+    # F59: fractional nodata of an integer raster, constant chunks (last chunk row) next to warped ones
+    (_w(4, 6, 8, 12, (F(1), F(0), F(-3), F(0), F(1), F(-2)), (1, 3), (2, 4), 3, 4), "int16", 2.5, None),
+    (_w(4, 6, 8, 12, (F(1), F(0), F(-3), F(0), F(1), F(-2)), (1, 3), (2, 4), 3, 4), "uint8", None, 2.5),
+    (_w(4, 6, 8, 12, (F(1), F(0), F(-3), F(0), F(1), F(-2)), (1, 3), (2, 4), 3, 4), "int32", -0.5, None),
 ]
 
 
@@ -1860,59 +2461,75 @@ def run(R: Run):
         for sched in SCHEDS:
             oracle_pair(R, ns, case, dtype, data, attr, dn, sched, 1, tag="witness")
 
-    # 1. reference semantics and small pieces
-    spec_warp(R, ns, rng, R.pick(200, 288))
-    corr_small_ops(R, ns, rng)
+    # (the fresh-interpreter reference calls of the call-history stream start now and are collected in stage `histories`)
+    hist = histories_start(random.Random(f"c13-histories-{R.seed}"), R.pick(12, 120), list(DTYPES), workers=R.pick(5, 8))
+    try:
 
-    mark('spec+small')
-    # 2. exact stream through the whole pipeline (model == real chunked, model == real in-memory)
-    dts = list(DTYPES)
-    for i in range(R.pick(400, 3600)):
-        rotated = i % 5 == 4
-        case = gen_case(rng, rotated=rotated)
-        corr_lowlevel(R, ns, rng, case, dts[i % len(dts)], rotated=rotated, inject=False)
-    for i in range(R.pick(240, 1800)):
-        rotated = i % 4 == 3
-        case = gen_case(rng, rotated=rotated, small=True)
-        corr_lowlevel(R, ns, rng, case, dts[i % len(dts)], rotated=rotated, inject=True)
-    for i in range(R.pick(400, 3600)):
-        case = gen_case(rng, rotated=(i % 6 == 5))
-        corr_xr(R, ns, rng, case, dts[i % len(dts)])
+        # 1. reference semantics and small pieces
+        spec_warp(R, ns, rng, R.pick(200, 288))
+        corr_small_ops(R, ns, rng)
 
-    mark('exact-stream')
-    # 2b. placements where a destination pixel centre maps exactly onto the source's x=0 / y=0 line
-    # (half-pixel shifted grids): GDAL's answer depends on the row length -> known finding
-    for i in range(R.pick(12, 120)):
-        sw, dw = rng.randint(2, 6), rng.randint(6, 10)
-        k = rng.randint(1, dw - 2)  # destination column whose centre maps onto x=0 of the source
-        a = rng.choice([F(1), F(1), F(2), F(1, 2)])
-        case = _w(rng.randint(1, 4), sw, rng.randint(1, 4), dw, (a, F(0), -a * (k + F(1, 2)), F(0), F(1), F(0)),
-                  None, None, rng.randint(1, 4), rng.randint(1, 4))
-        case["sy"], case["sx"] = compositions(rng, case["sh"]), compositions(rng, sw)
-        dtype = [d for d in dts if d != "bool"][i % (len(dts) - 1)]
-        data = (np.arange(case["sh"] * sw).reshape(case["sh"], sw) % 7 + 1).astype(dtype)
-        oracle_pair(R, ns, case, dtype, data, None, None, "sync", 0, tag="edge0")
+        mark('spec+small')
+        # 2. exact stream through the whole pipeline (model == real chunked, model == real in-memory)
+        dts = list(DTYPES)
+        for i in range(R.pick(400, 3000)):
+            rotated = i % 5 == 4
+            case = gen_case(rng, rotated=rotated)
+            corr_lowlevel(R, ns, rng, case, dts[i % len(dts)], rotated=rotated, inject=False)
+        for i in range(R.pick(240, 1500)):
+            rotated = i % 4 == 3
+            case = gen_case(rng, rotated=rotated, small=True)
+            corr_lowlevel(R, ns, rng, case, dts[i % len(dts)], rotated=rotated, inject=True)
+        # (the public entry point is also driven by glue_xr_entry with every argument form: 300 + 160 quick cases)
+        for i in range(R.pick(300, 3000)):
+            case = gen_case(rng, rotated=(i % 6 == 5))
+            corr_xr(R, ns, rng, case, dts[i % len(dts)])
 
-    mark('edge0')
-    # 3. leading time axis, cross CRS, other resampling (oracle only)
-    extra_axes(R, ns, rng, R.pick(120, 1200))
-    mark('extra_axes')
-    joint_compute(R, ns, rng, R.pick(70, 600), dts)
-    mark('joint_compute')
-    histories(R, ns, rng, R.pick(12, 120), dts)
-    mark('histories')
-    cross_crs(R, ns, rng, R.pick(120, 1500))
-    mark('cross_crs')
-    zoom_stream(R, ns, rng, R.pick(90, 900))
-    mark('zoom_stream')
-    identity_corner(R, ns, rng, R.pick(100, 1200), dts)
-    mark('identity_corner')
-    resampling_stream(R, ns, rng, R.pick(60, 600), dts)
-    mark('resampling')
-    crs_churn(R, ns, rng, R.pick(130, 900))
-    mark('crs_churn')
+        mark('exact-stream')
+        # 2b. placements where a destination pixel centre maps exactly onto the source's x=0 / y=0 line
+        # (half-pixel shifted grids): GDAL's answer depends on the row length -> known finding
+        for i in range(R.pick(12, 120)):
+            sw, dw = rng.randint(2, 6), rng.randint(6, 10)
+            k = rng.randint(1, dw - 2)  # destination column whose centre maps onto x=0 of the source
+            a = rng.choice([F(1), F(1), F(2), F(1, 2)])
+            case = _w(rng.randint(1, 4), sw, rng.randint(1, 4), dw, (a, F(0), -a * (k + F(1, 2)), F(0), F(1), F(0)),
+                      None, None, rng.randint(1, 4), rng.randint(1, 4))
+            case["sy"], case["sx"] = compositions(rng, case["sh"]), compositions(rng, sw)
+            dtype = [d for d in dts if d != "bool"][i % (len(dts) - 1)]
+            data = (np.arange(case["sh"] * sw).reshape(case["sh"], sw) % 7 + 1).astype(dtype)
+            oracle_pair(R, ns, case, dtype, data, None, None, "sync", 0, tag="edge0")
+
+        mark('edge0')
+        fractional_nodata(R, ns, rng, R.pick(40, 400))
+        mark('fractional_nodata')
+        glue_small(R, ns, rng)
+        glue_kw(R, ns, rng)
+        glue_xr_entry(R, ns, rng, R.pick(160, 1600), dts)
+        mark('glue')
+        dtype_matrix(R, ns, rng, R.pick(2 * len(ALL_DTYPES) * len(ND_MODES), 12 * len(ALL_DTYPES) * len(ND_MODES)))
+        mark('dtype_matrix')
+        # 3. leading time axis, cross CRS, other resampling (oracle only)
+        extra_axes(R, ns, rng, R.pick(120, 1200))
+        mark('extra_axes')
+        joint_compute(R, ns, rng, R.pick(70, 600), dts)
+        mark('joint_compute')
+        histories_finish(R, ns, hist)
+        mark('histories')
+        cross_crs(R, ns, rng, R.pick(120, 1500))
+        mark('cross_crs')
+        zoom_stream(R, ns, rng, R.pick(90, 900))
+        mark('zoom_stream')
+        identity_corner(R, ns, rng, R.pick(100, 1200), dts)
+        mark('identity_corner')
+        resampling_stream(R, ns, rng, R.pick(60, 600), dts)
+        mark('resampling')
+        crs_churn(R, ns, rng, R.pick(130, 900))
+        mark('crs_churn')
+    finally:
+        hist[0].shutdown(wait=False, cancel_futures=True)
 
     R.extra["stage_seconds"] = stage_t
+    R.notes.extend(n for n in _NOTES if n not in R.notes)
     R.searchers.append(searcher)
     R.assumptions.append("rasterio/GDAL nearest-neighbour warp between grids of one CRS follows Model.C13.gdalNearest "
                          "(half-open extent, floor of the mapped centre, INIT_DEST = nodata or 0, src nodata skipped, "
@@ -1961,6 +2578,11 @@ def replay(R: Run, rec) -> int:
         for f in R.oracle_failures:
             print("FAIL:", f["key"], f["what"])
         return 1 if R.oracle_failures else 0
+    if cj.get("kind") == "matrix":
+        matrix_one(R, ns, cj)
+        for f in R.oracle_failures:
+            print("FAIL:", f["key"], f["what"])
+        return 1 if R.oracle_failures else 0
     if cj.get("kind") == "identity":
         identity_one(R, ns, cj)
         for f in R.oracle_failures:
@@ -1994,8 +2616,8 @@ def replay(R: Run, rec) -> int:
     if cj.get("lowlevel"):
         sg, dg, _ = geoboxes(ns, case)
         sn, dn = nd_from_json(cj["src_nd"]), nd_from_json(cj["dst_nd"])
-        out = ns.D._dask_rio_reproject(ns.da.from_array(data, chunks=(case["sy"], case["sx"])), sg, dg, "nearest", sn, dn,
-                                       ydim=0, chunks=(case["cy"], case["cx"])).compute(scheduler="synchronous")
+        out = dask_reproject(ns, ns.da.from_array(data, chunks=(case["sy"], case["sx"])), sg, dg, "nearest", sn, dn,
+                             ydim=0, chunks=(case["cy"], case["cx"])).compute(scheduler="synchronous")
         fv = spec_fill(dtype, sn, dn)
         vals = out[unreached_exact(case)]
         good = (vals != vals) if (np.dtype(dtype).kind == "f" and math.isnan(float(fv))) else (vals == fv)
